@@ -11,7 +11,7 @@ code file and the emission trace of the hook (ASL_VERIF_TRACE):
     equals the listing address of the line that defines it.
 """
 import os, re
-from vf import engine, corpus, golden, asl, pfile, run, lstparse
+from vf import engine, corpus, golden, asl, pfile, run, lstparse, variants
 from vf.gen import composite
 
 ID = "C19"
@@ -48,7 +48,7 @@ def strategy_(d, tier):
         names = corpus.names()
         return dict(kind="golden", test=names[d.int(0, len(names) - 1)],
                     radix=d.weighted([(4, 16), (2, 8), (2, 10), (1, 2), (1, 36), (2, d.int(2, 36))]),
-                    share=d.choice(["c", "p", "a"]))
+                    share=d.choice(["c", "p", "a"]), var=variants.ops_strategy(d) if d.bool(0.5) else None)
     spans = []
     for _ in range(d.weighted([(3, 1), (2, 2), (1, 3)])):
         cpu = d.choice(["z80", "68000", "8051", "16c84"])
@@ -382,14 +382,19 @@ def execute(case):
         env = {"ASL_VERIF_TRACE": os.path.join(d, "trace.txt")}
         if case["kind"] == "golden":
             name = case["test"]
-            r = golden.assemble_golden(name, args=args, env=env, workdir=d, want=(name + ".lst", name + ".map"))
+            vsrc = variants.apply(corpus.load(name)["src"], case["var"]) if case.get("var") else None
+            r = golden.assemble_golden(name, src=vsrc, args=args, env=env, workdir=d, want=(name + ".lst", name + ".map"))
             if r["timed_out"]:
                 return engine.inconclusive("timeout", classes)
+            if vsrc is not None:
+                classes.append("golden-variant")
+                if r["status"] != 0 or r["p"] is None:
+                    return engine.discarded("variant-invalid", classes)
             status, err, p = r["status"], r["r"].err, r["p"]
             lst, mp = r["files"][name + ".lst"], r["files"][name + ".map"]
             sh = run.read(d, name + ".h")
             labels, feats, complete = None, set(), None
-            ident = name
+            ident = name + (engine.digest(str(case["var"]))[:6] if case.get("var") else "")
             cpu_of_line = single_cpu(name)
         else:
             src, inc, labels, feats, must, cpu_of_line = render(case)
